@@ -183,4 +183,19 @@ theorem evaluate_trace_or (m : Machine σ α ξ) (dflt : Metric α β) (st0 : σ
   | error e => left; simp [evaluate, hs, hcv, hm, hyx, hn, hsp]
   | ok fs => right; exact ⟨mt, nm, fs, hs, rfl, rfl, rfl, hn, rfl⟩
 
+/-- fold number 0 always calls `fit`; if `fit` forgets the earlier state, the fold does not depend
+on the state the forecaster was handed in with -/
+theorem foldStep_zero_indep (c : Ctx σ α ξ β) (hr : FitResets c.m) (st st' : σ) (f : Fold) :
+    foldStep c 0 st f = foldStep c 0 st' f := by
+  have h0 : callsFit c.strategy 0 = true := by simp [callsFit]
+  have hfit : ∀ y X fh p, c.m.fit st y X fh p = c.m.fit st' y X fh p := hr st st'
+  unfold foldStep
+  simp only [h0, ↓reduceIte, hfit]
+
+theorem loop_zero_indep (c : Ctx σ α ξ β) (hr : FitResets c.m) (st st' : σ) (fs : List Fold) :
+    loop c 0 st fs = loop c 0 st' fs := by
+  cases fs with
+  | nil => rfl
+  | cons f fs => simp only [loop, foldStep_zero_indep c hr st st']
+
 end SkVerif.Lem.Ev
